@@ -94,15 +94,15 @@ func c10Child(line string) (res string) {
 }
 
 type C10Case struct {
-	PairSeed uint64 `json:"pair_seed"`
-	Stream   string `json:"stream"`   // plain | optimized | signature | overlay
-	Comp     Comp   `json:"comp"`
-	Consumer string `json:"consumer"` // apply | optimize | signature | overlay
-	Kind     string `json:"kind"`     // truncate | mutate | sighashes
-	Cut      int    `json:"cut,omitempty"`
-	Mut      string `json:"mut,omitempty"`   // description of the mutation
-	MutSeed  uint64 `json:"mut_seed,omitempty"`
-	DropHashes int  `json:"drop_hashes,omitempty"`
+	PairSeed   uint64 `json:"pair_seed"`
+	Stream     string `json:"stream"` // plain | optimized | signature | overlay
+	Comp       Comp   `json:"comp"`
+	Consumer   string `json:"consumer"` // apply | optimize | signature | overlay
+	Kind       string `json:"kind"`     // truncate | mutate | sighashes
+	Cut        int    `json:"cut,omitempty"`
+	Mut        string `json:"mut,omitempty"` // description of the mutation
+	MutSeed    uint64 `json:"mut_seed,omitempty"`
+	DropHashes int    `json:"drop_hashes,omitempty"`
 }
 
 type c10Base struct {
